@@ -40,7 +40,10 @@ fn main() -> Result<(), Box<dyn Error>> {
             }
         }
         xml_xpath::eval::model::Value::Number(v) => {
-            writeln!(buf, "{}", v)?;
+            // as string() converts a number: Infinity, -Infinity, NaN, not Rust's inf.
+            let text = String::try_from(&xml_xpath::eval::model::Value::Number(v))
+                .map_err(|v| v.to_string())?;
+            writeln!(buf, "{}", text)?;
         }
         xml_xpath::eval::model::Value::Text(v) => {
             writeln!(buf, "{}", v)?;
